@@ -169,6 +169,12 @@ def shaped_scripts(rng, big):
     out += [b'\x00\x14' + h20, b'\x00\x20' + h32, b'\x00\x14' + h32, b'\x00\x20' + h20, b'\x16\x00\x14' + h20,
             b'\x22\x00\x20' + h32, b'\x00\x15' + h20, b'\x01\x14' + h20, b'\x00\x14' + h20 + b'\x00',
             b'\x16\x00\x14' + h20[:19], b'\x22\x00\x20' + h32 + b'\x00', b'\x16\x00\x15' + h20, b'\x17\x00\x14' + h20]
+    # strings of exactly 22 / 34 bytes whose second byte is 0x14 / 0x20 but whose first byte is something
+    # else: a push that runs past the end, a PUSHDATA opcode, an ordinary opcode, OP_1..OP_16
+    for L in (20, 32):
+        for first in (0x16, 0x15, 0x17, 0x22, 0x21, 0x4b, 0x4c, 0x4d, 0x4e, 0x01, 0x51, 0x60, 0x61, 0x76, 0xac, 0xff):
+            out.append(bytes([first, L]) + rbytes(rng, L))
+            out.append(bytes([first, L]) + b'\x00' * L)
     # --- every prefix of structured scripts (a truncated push at each position)
     pk = b'\x02' + rbytes(rng, 32)
     sig = b'\x30' + rbytes(rng, 70)
